@@ -3,6 +3,7 @@ package rules
 import (
 	"fmt"
 	"go/token"
+	"go/types"
 	"os"
 	"path/filepath"
 	"regexp"
@@ -261,17 +262,37 @@ func c15Convert(c *Ctx) {
 			c.Anchor("O15.3", "ParseShootName call in "+key)
 			continue
 		}
-		// the append loop: append(result.<field>, r) inside a counted loop i < cnt
+		// the converter and the helpers of its package it calls (appendRepeated, millis, ...)
+		region := FindFuncs(fn, 2, func(*ssa.Function) bool { return true })
+		fromParse := func(v ssa.Value, idx int) bool {
+			return SliceAny(v, func(r ssa.Value) bool { return IsResultOf(parse, idx)(r) })
+		}
+		// the step type: element type of result.<field>
+		var stepT types.Type
+		for _, g2 := range region {
+			EachInstr(g2, func(in ssa.Instruction) {
+				if fa, ok := in.(*ssa.FieldAddr); ok {
+					if fv, _ := FieldOf(fa); fv != nil && fv.Name() == g.field {
+						if sl, ok := fv.Type().Underlying().(*types.Slice); ok {
+							stepT = sl.Elem()
+						}
+					}
+				}
+			})
+		}
+		// the append loop: append(<steps>, step) inside a counted loop i < count (here or in a helper that gets count)
 		var app *ssa.Call
-		EachInstr(fn, func(in ssa.Instruction) {
-			cl, ok := in.(*ssa.Call)
-			if !ok || !IsBuiltinCall(cl, "append") {
-				return
-			}
-			if fv, _ := FieldOf(cl.Call.Args[0]); fv != nil && fv.Name() == g.field {
-				app = cl
-			}
-		})
+		for _, g2 := range region {
+			EachInstr(g2, func(in ssa.Instruction) {
+				cl, ok := in.(*ssa.Call)
+				if !ok || !IsBuiltinCall(cl, "append") || stepT == nil {
+					return
+				}
+				if sl, ok := cl.Call.Args[0].Type().Underlying().(*types.Slice); ok && types.Identical(sl.Elem(), stepT) {
+					app = cl
+				}
+			})
+		}
 		okLoop := false
 		if app != nil {
 			if hdr := loopHeaderOf(app.Block()); hdr != nil {
@@ -290,7 +311,7 @@ func c15Convert(c *Ctx) {
 					}
 					for _, f := range CmpFactsAt(app) {
 						f = f.Canon()
-						if f.Op == token.LSS && f.X == ssa.Value(phi) && DerivesOnly(f.Y, false, IsResultOf(parse, 1)) {
+						if f.Op == token.LSS && f.X == ssa.Value(phi) && fromParse(f.Y, 1) {
 							okLoop = true
 						}
 					}
@@ -301,35 +322,21 @@ func c15Convert(c *Ctx) {
 		// the appended step is the conversion of reqs[name]
 		okStep := false
 		if app != nil {
-			if sl, ok := app.Call.Args[1].(*ssa.Slice); ok {
-				if a, ok := sl.X.(*ssa.Alloc); ok {
-					for _, ref := range *a.Referrers() {
-						if ia, ok := ref.(*ssa.IndexAddr); ok {
-							for _, r2 := range *ia.Referrers() {
-								if st, ok := r2.(*ssa.Store); ok {
-									for _, rt := range Roots(st.Val, false) {
-										cv, _ := CallOfValue(rt)
-										if cv == nil {
-											// struct copy through a local: look at the whole-struct stores
-											continue
-										}
-										if cv.Call.StaticCallee() != nil && strings.HasPrefix(cv.Call.StaticCallee().Name(), "convertConfigTo") {
-											// its argument is reqs[name]
-											for _, r3 := range Roots(cv.Call.Args[0], false) {
-												if ex, ok := r3.(*ssa.Extract); ok {
-													if lk, ok := ex.Tuple.(*ssa.Lookup); ok && lk.X == ssa.Value(fn.Params[1]) && DerivesOnly(lk.Index, false, IsResultOf(parse, 0)) {
-														okStep = true
-													}
-												}
-											}
-										}
-									}
-								}
-							}
-						}
-					}
+			isConv := func(r ssa.Value) bool {
+				cv, _ := CallOfValue(r)
+				if cv == nil || cv.Call.StaticCallee() == nil || !strings.HasPrefix(cv.Call.StaticCallee().Name(), "convertConfigTo") {
+					return false
 				}
+				return SliceAny(cv.Call.Args[0], func(r3 ssa.Value) bool {
+					ex, ok := r3.(*ssa.Extract)
+					if !ok {
+						return false
+					}
+					lk, ok := ex.Tuple.(*ssa.Lookup)
+					return ok && lk.X == ssa.Value(fn.Params[1]) && fromParse(lk.Index, 0)
+				})
 			}
+			okStep = SliceAny(app.Call.Args[1], isConv)
 		}
 		c.Check(okStep, "O15.3", key+":appended-step-is-the-named-request", fn.Pos(), "the appended step is convertConfigTo*(reqs[name]) for the parsed name")
 		// sleep item: adds to the last element, guarded by len > 0, amount = parsed first argument
@@ -367,12 +374,27 @@ func c15Convert(c *Ctx) {
 			isSleep := false
 			for _, f := range CmpFactsAt(st) {
 				if f.Op == token.EQL {
-					if s, ok := ConstString(f.Y); ok && s == "sleep" {
-						isSleep = true
+					for _, side := range []ssa.Value{f.X, f.Y} {
+						if s, ok := ConstString(side); ok && s == "sleep" {
+							isSleep = true
+						}
 					}
 				}
 			}
-			amount := DerivesAny(st.Val, true, IsResultOf(parse, 1))
+			// the amount: the parsed first argument, directly or through a helper that scales it (millis(n))
+			amount := fromParse(st.Val, 1)
+			if !amount {
+				SliceAny(st.Val, func(r ssa.Value) bool {
+					if cl, _ := CallOfValue(r); cl != nil && cl.Call.StaticCallee() != nil && PkgOf(cl.Call.StaticCallee()) == PkgOf(fn) {
+						for _, a := range cl.Call.Args {
+							if fromParse(a, 1) {
+								amount = true
+							}
+						}
+					}
+					return false
+				})
+			}
 			okSleep = isSleep && amount
 			for _, f := range CmpFactsAt(st) {
 				f = f.Canon()
@@ -382,6 +404,12 @@ func c15Convert(c *Ctx) {
 				}
 				if ly, ok := f.Y.(*ssa.Call); ok && IsBuiltinCall(ly, "len") && f.Op == token.LSS && isZero(f.X) {
 					okGuard = true
+				}
+				// the index itself is known non-negative: lastIdx := len - 1; if lastIdx < 0 { return err }
+				if f.Y == ssa.Value(bo) && (f.Op == token.LEQ || f.Op == token.LSS) {
+					if k, isK := ConstInt(f.X); isK && (f.Op == token.LEQ && k >= 0 || f.Op == token.LSS && k >= -1) {
+						okGuard = true
+					}
 				}
 			}
 		})
